@@ -31,6 +31,7 @@ type Case struct {
 	Depth int    `json:"depth,omitempty"`
 	Path  string `json:"path,omitempty"`
 	Input string `json:"input,omitempty"`
+	Bytes []byte `json:"input_bytes,omitempty"` // the exact input (Input is lossy for ill-formed UTF-8)
 }
 
 // ---- depth-targeted texts ----
@@ -244,7 +245,10 @@ func tokensThenValue(text string, k int) (bool, string) {
 // ---- deep Go values ----
 
 var valuePaths = []string{"nested []any", "nested map[string]any", "nested []any around empty []any", "nested []any around empty map", "nested []any around []int{}", "nested map around empty map[string]int",
-	"recursive slice type", "recursive map type", "recursive pointer struct (slices)", "recursive pointer struct (maps)", "nested []any around struct{}", "nested []any around jsontext.Value([])", "nested *[]any"}
+	"recursive slice type", "recursive map type", "recursive pointer struct (slices)", "recursive pointer struct (maps)", "nested []any around struct{}", "nested []any around jsontext.Value([])", "nested *[]any",
+	"nested []any around nil map[string]int", "nested []any around nil named map", "nested []any around nil []int", "nested []any around [0]int", "nested []any around nil map[string]any", "nested []any around nil []any"}
+
+type namedMap map[string]string
 
 // marshalDeep builds a Go value nested d containers deep and marshals it; returns whether Marshal accepted and the output depth.
 func marshalDeep(path string, d int) (ok bool, outDepth int, msg string) {
@@ -283,6 +287,18 @@ func marshalDeep(path string, d int) (ok bool, outDepth int, msg string) {
 		v = x
 	case "nested []any around struct{}":
 		v = wrapS(struct{}{}, d-1)
+	case "nested []any around nil map[string]int":
+		v = wrapS(map[string]int(nil), d-1)
+	case "nested []any around nil named map":
+		v = wrapS(namedMap(nil), d-1)
+	case "nested []any around nil []int":
+		v = wrapS([]int(nil), d-1)
+	case "nested []any around [0]int":
+		v = wrapS([0]int{}, d-1)
+	case "nested []any around nil map[string]any":
+		v = wrapS(map[string]any(nil), d-1)
+	case "nested []any around nil []any":
+		v = wrapS([]any(nil), d-1)
 	case "nested []any around jsontext.Value([])":
 		v = wrapS(jsontext.Value("[]"), d-1)
 	case "nested *[]any":
@@ -408,6 +424,10 @@ func childMain() bool {
 	if c == "" {
 		return false
 	}
+	if name, ok := strings.CutPrefix(c, "target:"); ok {
+		unmarshalCyclicTarget(name)
+		return true
+	}
 	if name, ok := strings.CutPrefix(c, "cycle:"); ok {
 		if marshalCycle(name) {
 			fmt.Println("C20CHILD errored")
@@ -520,6 +540,12 @@ func sweepOne(s []byte) (msg string) {
 
 func replayCase(cs Case) string {
 	switch cs.Part {
+	case "target":
+		out, err := runChild("target:" + cs.Path)
+		if strings.Contains(out, "C20CHILD returned") {
+			return ""
+		}
+		return fmt.Sprintf("Unmarshal into a target that contains a cycle (%s) crashed or hung the process: %v", cs.Path, err)
 	case "depth-text":
 		for _, sh := range shapes() {
 			if sh.name == cs.Shape {
@@ -529,6 +555,9 @@ func replayCase(cs Case) string {
 	case "depth-value":
 		return checkValue(cs.Path, cs.Depth)
 	case "sweep":
+		if cs.Bytes != nil {
+			return sweepOne(cs.Bytes)
+		}
 		return sweepOne([]byte(cs.Input))
 	}
 	return ""
@@ -662,6 +691,7 @@ func Run(r *evid.Run) {
 	}
 	r.Sample(Case{Part: "cycle", Path: "interface holding pointer to itself"})
 	r.Bound("cycles: %d cyclic Go values, each marshaled 3 ways in a child process", len(cycles))
+	cyclicTargetFamily(r)
 	misuse(r)
 	coderStates(r)
 	userErrors(r)
@@ -671,6 +701,9 @@ func Run(r *evid.Run) {
 	lens := views.ForTier(r.Tier).Minus(1)
 	vs := views.Views(lens)
 	vs = append(vs, views.View{Name: "W-whitespace", Alpha: enum.ByteSyms("0[]{}\n \t,\":a"), MaxLen: lens.A1 + 1})
+	// lead and continuation bytes of the multi-byte sequences the escapers look for (U+2028/9, 2- and 4-byte forms), cut off anywhere
+	u8 := enum.ByteSyms("\xe2\x80\xa8\xa9\xc3\xf0\x9f<&\"a\\")
+	vs = append(vs, views.View{Name: "U-utf8-fragments", Alpha: u8, MaxLen: 4}, views.View{Name: "U-utf8-fragments in a string", Alpha: u8, MaxLen: 4, Prefix: `"`})
 	views.ForAll(r, vs, func(w *enum.Worker, v views.View) func([]byte) {
 		var cur []byte
 		w.Describe = func() any { return Case{Part: "sweep", Input: string(cur)} }
@@ -683,7 +716,7 @@ func Run(r *evid.Run) {
 				r.Nontrivial.Add(1)
 			}
 			if m := sweepOne(s); m != "" {
-				cs := Case{Part: "sweep", Input: string(s)}
+				cs := Case{Part: "sweep", Input: string(s), Bytes: append([]byte(nil), s...)}
 				r.Violation(fmt.Sprintf("c20|sweep|%q", s), m, cs, func() bool { return replayCase(cs) != "" })
 			}
 		}
